@@ -83,6 +83,59 @@ func c04Check(c *core.C, tag string, tok *lib.Token, a ast.AuthContent, viaText 
 	return d.Class, true
 }
 
+// c04Reused drives ONE authorizer through three evaluations: the first half of content a, then
+// the second half added on top (no Reset in between: the verdict must be the one of the whole
+// of a), then Reset and the neighbour b. Every verdict is decided by the reference on the
+// content the authorizer holds at that moment.
+func c04Reused(c *core.C, tok *lib.Token, a, b ast.AuthContent) {
+	h := func(n int) int { return (n + 1) / 2 }
+	// all authorizer rules go into the second half: the library drops the authorizer's rules at
+	// the end of an Authorize (World.ResetRules), and no property says what an authorizer rule
+	// added before one Authorize means for a later one - see DESIGN 7.4
+	p1 := ast.AuthContent{Facts: a.Facts[:h(len(a.Facts))], Rules: a.Rules[:0], Checks: a.Checks[:h(len(a.Checks))], Policies: a.Policies[:h(len(a.Policies))]}
+	p2 := ast.AuthContent{Facts: a.Facts[h(len(a.Facts)):], Rules: a.Rules, Checks: a.Checks[h(len(a.Checks)):], Policies: a.Policies[h(len(a.Policies)):]}
+	whole := ast.AuthContent{Facts: append(append([]ast.Pred{}, p1.Facts...), p2.Facts...), Rules: append(append([]ast.Rule{}, p1.Rules...), p2.Rules...),
+		Checks: append(append([]ast.Check{}, p1.Checks...), p2.Checks...), Policies: append(append([]ast.Policy{}, p1.Policies...), p2.Policies...)}
+	want := []ref.Decision{ref.Authorize(tok.Blocks, p1), ref.Authorize(tok.Blocks, whole), ref.Authorize(tok.Blocks, b)}
+	for _, d := range want {
+		if d.Class == "" {
+			c.Count("no_verdict_reused:"+d.NoVerdict, 1)
+			return
+		}
+	}
+	c.Eval(3)
+	got := make([]lib.Obs, 3)
+	pi := lib.Try(func() {
+		az, err := tok.B.AuthorizerFor(biscuit.WithSingularRootPublicKey(tok.Pub), lib.BigLimits())
+		if err != nil {
+			got[0] = lib.Obs{Class: lib.FAIL, Err: "authorizer: " + err.Error()}
+			got[1], got[2] = got[0], got[0]
+			return
+		}
+		got[0] = lib.ObserveOn(az, p1, nil)
+		got[1] = lib.ObserveOn(az, p2, nil)
+		az.Reset()
+		got[2] = lib.ObserveOn(az, b, nil)
+	})
+	if pi != nil {
+		c.Violate("authorize-panic/"+pi.Site, "re-used authorizer panicked: "+pi.Msg, map[string]any{"token_blocks": tok.Blocks, "first_half": p1, "second_half": p2, "after_reset": b})
+		return
+	}
+	steps := []string{"first-half", "second-half-added", "after-reset"}
+	for i, d := range want {
+		if got[i].Class == lib.LIMIT || got[i].Class == lib.PANIC {
+			c.Count("reused_step_without_verdict", 1)
+			continue
+		}
+		if string(got[i].Class) != d.Class {
+			c.Violate(fmt.Sprintf("verdict-on-reused-authorizer/%s/%s-where-%s", steps[i], got[i].Class, d.Class),
+				fmt.Sprintf("one authorizer, step %q: library says %s, decision procedure says %s (%s)", steps[i], got[i].Class, d.Class, d.Signature),
+				map[string]any{"token_blocks": tok.Blocks, "first_half": p1, "second_half": p2, "after_reset": b, "step": steps[i], "library": got, "reference": []string{want[0].Class, want[1].Class, want[2].Class}})
+		}
+	}
+	c.Count("reused_authorizer_sequences", 1)
+}
+
 // perturb derives neighbours that separate the usual inversions.
 func c04Perturb(r *rand.Rand, u *gen.Universe, a ast.AuthContent) (string, ast.AuthContent) {
 	b := ast.AuthContent{Facts: a.Facts, Rules: a.Rules}
@@ -206,6 +259,8 @@ func c04Run(c *core.C) {
 				a = b
 			}
 		}
+		_, nb := c04Perturb(r, s.U, s.Auth)
+		c04Reused(c, tok, s.Auth, nb)
 		if gen.AuthPrintable(a) {
 			c04Check(c, "via-text", tok, a, true)
 			c.Count("via_text", 1)
@@ -215,9 +270,10 @@ func c04Run(c *core.C) {
 
 func init() {
 	core.Register(&core.Prop{
-		ID:    "C04",
-		Level: "exploration",
-		Rule: "each case: 6 seeded scenarios over a small colliding universe (token with 1-4 blocks of facts/rules/checks, built and in half of the cases re-loaded from bytes; authorizer with facts, rules, checks, 0-3 ordered policies; typed expression filters, 4% uniformly failing), each perturbed into 5 neighbours (swap allow/deny, reverse policies, drop a query, add failing check, prepend/append always-matching policy, state the facts checks ask for) and once entered as parsed Datalog text. Library outcome class (OK/DENY/NOMATCH/FAIL) compared with the reference decision procedure R5 over reference fixpoint R1. " +
+		ID:        "C04",
+		MinCounts: map[string]int{"reused_authorizer_sequences": 900},
+		Level:     "exploration",
+		Rule: "each case: 6 seeded scenarios over a small colliding universe (token with 1-4 blocks of facts/rules/checks, built and in half of the cases re-loaded from bytes; authorizer with facts, rules, checks, 0-3 ordered policies; typed expression filters, 4% uniformly failing), each perturbed into 5 neighbours (swap allow/deny, reverse policies, drop a query, add failing check, prepend/append always-matching policy, state the facts checks ask for) once entered as parsed Datalog text, and once driven through ONE re-used authorizer (first half of the content, Authorize; second half with all the rules added on top, Authorize: verdict of the whole; Reset, a neighbour's content, Authorize). Library outcome class (OK/DENY/NOMATCH/FAIL) compared with the reference decision procedure R5 over reference fixpoint R1. " +
 			"Non-trivial/distinct = distinct (check pass/fail vector per scope, first matching policy index, kind) signatures.",
 		Assumptions: []string{"fragment of the property: ground facts, range-restricted rules, error-free or uniformly failing expressions; cases where a query has both answers and errors (order-dependent) give no verdict and are counted", "large limits; LIMIT is inconclusive"},
 		NumCases: func(tier string) int {
